@@ -14,6 +14,9 @@ fn main() {
     let args = Args::parse();
     let scenario = args.pos.first().cloned().unwrap_or_default();
     let shard = Shard::from_args(args);
+    if !shard.out.is_empty() && shard.out != "-" && !shard.args.has("child") {
+        simnet::hang::install(&scenario.to_uppercase(), &shard.out);
+    }
     let rep = match scenario.as_str() {
         "c15" => c15::run(&shard),
         "c16" => c16::run(&shard),
